@@ -60,6 +60,7 @@ pub fn dup_key() -> BoxedStrategy<Blob> {
         2 => gen::key_ascii(),
         1 => Just(Blob::Lit(vec![])),
         1 => (0u8..3, 100u32..400).prop_map(|(i, n)| Blob::Pad { fill: 0x6c, n, tail: vec![i] }),
+        1 => gen::key_magic_len(),
     ]
     .boxed()
 }
@@ -70,6 +71,7 @@ pub fn ins_val() -> BoxedStrategy<Blob> {
         8 => vec(any::<u8>(), 1..=12).prop_map(Blob::Lit),
         3 => (any::<u8>(), 20u32..300).prop_map(|(fill, n)| Blob::Pad { fill, n, tail: vec![] }),
         1 => (300u32..5000, any::<u64>()).prop_map(|(n, seed)| Blob::Rand { n, seed }),
+        1 => gen::val_magic_len(),
         // larger than the whole buffer of most small configurations
         1 => (5000u32..70_000, any::<u8>()).prop_map(|(n, fill)| Blob::Pad { fill, n, tail: vec![9] }),
     ]
